@@ -114,6 +114,16 @@ def ce_units(ctx, src):
         (r'ExposedT operator\+\+\(int\)', 'ExposedT M(postinc)(CE* self)', []),
         (r'ExposedT operator--\(int\)', 'ExposedT M(postdec)(CE* self)', []),
     ]
+    # members written in terms of other members (e.g. postfix ++ as `this->operator++() - 1`, `this->store(this->load() + 1)`):
+    # member calls are lowered to the instantiated C functions, which are declared up front
+    u.raw(''.join(h + ';\n' for _, h, _ in mem))
+    CALLS = [Rule(r'self->operator\+\+\(\s*\)', 'M(preinc)(self)', count=None, regex=True),
+             Rule(r'self->operator--\(\s*\)', 'M(predec)(self)', count=None, regex=True),
+             Rule(r'self->operator\+\+\(\s*0\s*\)', 'M(postinc)(self)', count=None, regex=True),
+             Rule(r'self->operator--\(\s*0\s*\)', 'M(postdec)(self)', count=None, regex=True),
+             Rule(r'self->(load|load_raw)\(\s*\)', r'M(\1)(self)', count=None, regex=True),
+             Rule(r'self->(store|store_raw)\(', r'M(\1)(self, ', count=None, regex=True)]
+    ST = ST + CALLS
     for sig, hdr, rules in mem:
         u.function(src, ENC, sig, new_header=hdr, rules=ST + rules, scope=CLS)
     ops = [('+', 'add'), ('-', 'sub'), ('*', 'mul'), ('/', 'div')]
